@@ -218,10 +218,11 @@ theorem pushScalar_PX (ext : Ext) : ∀ (b : B) (x : SVal) (b' : B), pushScalar 
   | .bytesView p ty v views buf, x, b', h, hp => by
     simp only [pushScalar] at h
     obtain ⟨bs, hbs, h2⟩ := (bind_ok _ _ _).1 h
+    obtain ⟨vp, hvp, h2⟩ := (bind_ok _ _ _).1 h2
     obtain ⟨v', _, h4⟩ := (bind_ok _ _ _).1 h2
     cases h4
     simp only [PX] at hp ⊢
-    refine ViewPX_push hp ?_
+    refine ViewPX_push (value := bs) hp ?_ (viewPushValue_cases hvp)
     intro hty
     subst hty
     simp only [show (ViewTy.utf8View == ViewTy.utf8View) = true from rfl, if_true] at hbs
